@@ -33,6 +33,7 @@ class Spec:
         self.py_open_extra = {"CompletionItemKind"} if python_customizations else set()
         self._flat = {}
         self.open_empty_objects = False
+        self.allow_extra = False  # open reading: undeclared members are tolerated (forward compatibility, C15)
         self._check_discipline()
 
     # ---- structures -------------------------------------------------------------------
@@ -275,7 +276,7 @@ class Spec:
         if not props and self.open_empty_objects:
             return self._is_json(v)  # property-less literal / structure read as an extension point (C17 reading)
         for key in v:
-            if key not in names:
+            if key not in names and not self.allow_extra:
                 return False
         for p in props:
             if p["name"] in v:
